@@ -157,6 +157,10 @@ def extract_selected_variable_and_expression(symbolic_cls: Type, domain: Optiona
     elif domain and is_iterable(domain.domain):
         # a new From, the given one belongs to the caller and may be handed to several variables.
         domain = From(filter(lambda v: isinstance(v, symbolic_cls), domain.domain))
+    elif domain and not isinstance(domain.domain, SymbolicExpression) and not isinstance(domain.domain, symbolic_cls):
+        # a single object given as the domain is a domain of one value and is filtered by type like any other:
+        # an object of another type leaves nothing to range over (an iterator, because an empty list means no domain).
+        domain = From(iter(()))
 
     var = Variable(symbolic_cls.__name__, symbolic_cls, _domain_source_=domain, _predicate_type_=predicate_type,
                    _is_indexed_=index_class_cache(symbolic_cls))
